@@ -1,5 +1,6 @@
 import CwPlus.Driver.Common
 import CwPlus.Model.Cw20
+import CwPlus.Model.MsgWire
 /-!
 Scenario `cw20`: op-line parser, observation renderer and property monitors
 (C01, C02, C13, C19) for the cw20-base model.
@@ -315,7 +316,8 @@ def stepOp (m : MState) (toks : List String) : MState × StepResult :=
         match execute s m.blk snd msg with
         | .ok (s', out) =>
           ({ m with st := some s' },
-           { ok := some true, out := [("msgs", ";".intercalate (out.map renderOut))], tag := s!"{kind}.ok" })
+           { ok := some true, out := [("msgs", ";".intercalate (out.map renderOut)), ("raw", MsgWire.rawOfCw20 out)],
+             tag := s!"{kind}.ok" })
         | .error e => err m s!"{kind}.{e}"
   | "query" :: kind :: rest =>
     let a := args rest
